@@ -3,17 +3,33 @@
 import os, json, glob, collections, sys
 V = os.path.dirname(os.path.dirname(os.path.abspath(__file__)))
 print("#### Seeded changes (written independently by sub-agents)\n")
-print("| id | breaks | what it needs to manifest | detected by (quick tier) | also checked, silent |")
+print("| id | breaks | what it needs to manifest | detected at intake by (quick tier, checks as they stood) | final sweep (checks as committed) |")
 print("|---|---|---|---|---|")
+tot = collections.Counter()
 for p in sorted(glob.glob(os.path.join(V, "seeded", "*", "meta.json"))):
     m = json.load(open(p))
     if not m.get("confirmed"):
         print(f"| {m.get('id')} | {m.get('breaks_property')} | NOT CONFIRMED: {'; '.join(m.get('confirmation_log', []))[:150]} | | |")
         continue
     det = m.get("detected_by", [])
-    silent = [k for k, v in m.get("checks_run", {}).items() if v["rc"] == 0]
     need = (m.get("needs_to_manifest") or "").replace("|", "/").replace("\n", " ")
-    print(f"| {m['id']} | {m['breaks_property']} | {need[:170]} | {', '.join(det) if det else '**none**'} | {', '.join(silent)} |")
+    fs = m.get("final_sweep") or {}
+    hit = [k for k, v in fs.items() if k != "demo" and v == 1]
+    if hit:
+        final = ", ".join(hit)
+        tot["detected"] += 1
+    elif fs.get("demo") == "passes":
+        final = "neutralised (its demonstration passes on the current tree)"
+        tot["neutralised"] += 1
+    elif fs:
+        final = "**NOT DETECTED** " + json.dumps(fs)
+        tot["undetected"] += 1
+    else:
+        final = "(not swept)"
+        tot["not swept"] += 1
+    tot["intake-detected" if det else "intake-missed"] += 1
+    print(f"| {m['id']} | {m['breaks_property']} | {need[:170]} | {', '.join(det) if det else '**none**'} | {final} |")
+print("\nTotals: " + ", ".join(f"{k}: {v}" for k, v in sorted(tot.items())) + "\n")
 for d in ("hand", "ast"):
     rf = os.path.join(V, "mutants", d, "results.json")
     if not os.path.exists(rf):
